@@ -41,6 +41,7 @@ public:
     uint64_t tmo = -1ULL;
     bool closed = false;
     bool rd_shut = false;            // shutdown(Read): like a socket, every later read reports end of stream
+    bool tmo_per_wait = false;       // the timeout bounds each wait for more bytes (as in layered streams, e.g. TLS over a socket), not the whole call
     uint64_t n_recv_calls = 0, n_send_calls = 0;
     Endpoint(Wire* i, Wire* o) : in(i), out(o) {}
 
@@ -60,6 +61,7 @@ public:
                 if (limit_eof == 0 || in->eof) break;                      // end of stream
                 if (in->reset_errno && in->total_read >= in->reset_at) continue;
                 if (got && !full) break;
+                if (tmo_per_wait) deadline = photon::Timeout(tmo);
                 int r = in->readable.wait_no_lock(deadline);
                 if (rd_shut) break;
                 if (r < 0 && errno == ETIMEDOUT) { if (got) break; return -1; }
